@@ -24,7 +24,7 @@ for r in rows:
     out.append(f"| {r[0]} | {r[1]} | {r[2]} | {r[3]} | {('NOT CAUGHT: '+now[now.index('MISSED')+7:][:260]) if open_ else (mm.group(1) if mm else now[:160])} |")
 n=len(rows); missed=sum(1 for r in rows if r[3]!='caught')
 out.append('')
-out.append(f"{n} seeded changes, {n-missed} caught by the check as it stood when the change arrived, {missed} not; of those {missed-len(still)} are caught after the strengthening described in their meta.json and {len(still)} are still not caught ({', '.join(still)}: see their rows).")
+out.append(f"{n} seeded changes, {n-missed} caught by the check as it stood when the change arrived, {missed} not; of those {missed-len(still)} are caught after the strengthening described in their meta.json and {len(still)} are still not caught" + (f" ({', '.join(still)}: see their rows)." if still else "."))
 p='/verif/DESIGN.md'
 s=open(p).read()
 i=s.index('<!-- SEEDS-TABLE-BEGIN -->')+len('<!-- SEEDS-TABLE-BEGIN -->')
